@@ -2,7 +2,7 @@
    ([C09_check]) accept everything the model produces. *)
 From Coq Require Import List NArith ZArith Bool Lia Arith.
 From RareV Require Import Base.Res Base.Hex Base.Num Model.IsSpace Model.Tmpl Model.TmplPrint
-  Proofs.TmplFuel Proofs.TmplEsc Proofs.TmplCopy Proofs.TmplTree Proofs.TmplMain.
+  Proofs.TmplFuel Proofs.TmplEsc Proofs.TmplCopy Proofs.TmplTree Proofs.TmplMain Proofs.TmplEscTree.
 Import ListNotations.
 Local Open Scope N_scope.
 
@@ -121,7 +121,7 @@ Qed.
 (* the boolean form accepts what the model produces, for every well-formed claim *)
 Theorem check_sound k s : claim_static k s = true -> C09_check k s (obs_of (compile probe_fs s)) = true.
 Proof.
-  intros Hs. destruct k as [|s0|c|c w c'|c q|c call c'|c f lit w|c f x]; cbn [claim_static] in Hs.
+  intros Hs. destruct k as [|s0|c|c w c'|c q|c call c'|c f lit w|c f x|c]; cbn [claim_static] in Hs.
   - (* raw *)
     pose proof (compile_total probe_fs s) as Ht.
     destruct (compile probe_fs s) as [[t es]|] eqn:Hc; [|congruence].
@@ -201,7 +201,12 @@ Proof.
     apply (check_of_result (KArg c f x) _ _ _ E).
     + cbn [claim_static]. rewrite Hc, Hf, HxO, HxS, Hne, str_eqb_refl. reflexivity.
     + intros eo ee E'. cbn [claim_expect] in E'. rewrite Hx in E'. inversion E'; subst. split; [|reflexivity].
-      rewrite eval_app, eval_norm. f_equal. cbn [eval map concat eval_piece join]. rewrite app_nil_r. reflexivity.
+      rewrite eval_app, eval_norm. f_equal. cbn [eval map concat eval_piece join]. rewrite app_nil_r. reflexivity.  - (* layered escapes *)
+    apply andb_true_iff in Hs as [Hs0 Hs]. apply str_eqb_eq in Hs. subst s.
+    apply andb_true_iff in Hs0 as [H1 H2].
+    apply (check_of_result (KEscTree c) _ _ _ (print_parse_escaped true probe_fs c H1 H2)).
+    + cbn [claim_static]. rewrite H1, H2, str_eqb_refl. reflexivity.
+    + intros eo ee E. inversion E; subst. split; [apply eval_norm|reflexivity].
 Qed.
 
 (* ---- statements collected for Props/C09.v ---- *)
